@@ -580,7 +580,9 @@ func runC36(c *Ctx) {
 // Nodes are (function, int parameter); an intra-component call that passes parameter j unchanged as argument k gives an edge
 // of weight 0, `j + c` (c > 0) an edge of weight 1. A parameter that is the subject of a depth guard and lies on a cycle of
 // weight-0 edges is a depth that never grows: the guard can never fire.
-func runC08R1i(c *Ctx, gs *guardSet) {
+func runC08R1i(c *Ctx, gs *guardSet) { runC08R1iAs(c, gs, "C08.R1i") }
+
+func runC08R1iAs(c *Ctx, gs *guardSet, rule string) {
 	p, r := c.P, c.R
 	cg := c.CG()
 	type node struct {
@@ -593,6 +595,12 @@ func runC08R1i(c *Ctx, gs *guardSet) {
 			set[f] = true
 		}
 		same := map[node][]node{}
+		type reset struct {
+			from *ssa.Function
+			to   node
+			pos  token.Pos
+		}
+		var resets []reset
 		var subjects []node
 		for _, f := range comp {
 			f := f
@@ -618,6 +626,9 @@ func runC08R1i(c *Ctx, gs *guardSet) {
 						n := node{f, paramIndex(f, prm)}
 						same[n] = append(same[n], node{g, k})
 					}
+					if _, isC := a.(*ssa.Const); isC {
+						resets = append(resets, reset{f, node{g, k}, call.Pos()})
+					}
 				}
 			})
 			// inline depth comparisons
@@ -636,6 +647,33 @@ func runC08R1i(c *Ctx, gs *guardSet) {
 		}
 		if len(subjects) == 0 {
 			continue
+		}
+		isSubj := map[node]bool{}
+		for _, s := range subjects {
+			isSubj[s] = true
+		}
+		for ri, rs := range resets {
+			if !isSubj[rs.to] {
+				continue
+			}
+			// only the tight cycle: the depth-guarded function calls, directly, the function that restarts its depth
+			// (its own depth-less wrapper). Longer cycles through a restart pass other guards or not — that is R1's question.
+			direct := false
+			eachInstr(rs.to.fn, func(_ *ssa.BasicBlock, _ int, i ssa.Instruction) {
+				if call, ok := i.(*ssa.Call); ok {
+					if g := staticCallee(call); g != nil && unwrapSynthetic(g) == rs.from {
+						direct = true
+					}
+				}
+			})
+			if !direct {
+				continue
+			}
+			name := "?"
+			if rs.to.idx >= 0 && rs.to.idx < len(rs.to.fn.Params) {
+				name = rs.to.fn.Params[rs.to.idx].Name()
+			}
+			r.Bad(rule, FuncID(rs.from), fmt.Sprintf("depth parameter %s of %s restarted#%d", name, rs.to.fn.Name(), ri+1), p.Pos(rs.pos), "a call inside the recursion cycle hands the guarded depth a constant: every level starts counting again, the bound never fires, and a deep or cyclic structure exhausts the stack")
 		}
 		seenSubj := map[node]bool{}
 		for _, s := range subjects {
@@ -668,9 +706,9 @@ func runC08R1i(c *Ctx, gs *guardSet) {
 				name = s.fn.Params[s.idx].Name()
 			}
 			if onCycle {
-				r.Bad("C08.R1i", FuncID(s.fn), "depth parameter "+name, pos, "the depth tested by the guard is handed around a recursion cycle unchanged: it never grows, so the bound can never fire")
+				r.Bad(rule, FuncID(s.fn), "depth parameter "+name, pos, "the depth tested by the guard is handed around a recursion cycle unchanged: it never grows, so the bound can never fire")
 			} else {
-				r.OK("C08.R1i", FuncID(s.fn), "depth parameter "+name, pos, "no recursion cycle hands this depth on unchanged (an increment or a fresh value lies on every cycle)", true)
+				r.OK(rule, FuncID(s.fn), "depth parameter "+name, pos, "no recursion cycle hands this depth on unchanged (an increment or a fresh value lies on every cycle)", true)
 			}
 		}
 	}
